@@ -29,7 +29,7 @@ Definition canon (m : merged) : mout :=
 
 Definition c07_model (i : c07_in) : c07_out :=
   let '(bigF, dest, fchain, aos) := i in
-  let vals := map (fun a => validate (snd (fst a)) dest (snd a)) aos in
+  let vals := map (fun a => validate (snd (fst a)) dest fchain (snd a)) aos in
   (vals, match get_consensus bigF dest fchain (accepted vals aos) with
          | Ok m => Ok (canon m) | Err => Err | Panic => Panic | Spin => Spin end).
 
@@ -142,8 +142,8 @@ Definition c07_ok (i : c07_in) (o : c07_out) : bool :=
   | _ => false
   end.
 
-(* recorded classes: 1 = F13d (a chain key in commit reports / messages / token data that fChain lacks),
-   2 = F13e (a message with f+1 reporters of token data and a slot index reported by fewer than f+1 oracles) *)
+(* recorded class: 2 = F13e (a message with f+1 reporters of token data and a slot index reported by fewer than f+1
+   oracles). Class 1 (F13d, unknown chain key) is repaired: such observations are rejected by the validation. *)
 Definition lonely_slot (fchain : list (N * Z)) (aos : list ao) : bool :=
   existsb (fun a => existsb (fun cl => existsb (fun ss =>
       negb (idx_forallb (fun i _ => match thr_of fchain (fst cl) with
@@ -154,8 +154,7 @@ Definition lonely_slot (fchain : list (N * Z)) (aos : list ao) : bool :=
 (* the class predicates look at the observations the (model of the) validation accepts *)
 Definition c07_known (i : c07_in) : N :=
   let '(bigF, dest, fchain, aos) := i in
-  let vaos := accepted (map (fun a => validate (snd (fst a)) dest (snd a)) aos) aos in
-  if unknown_key fchain o_commits vaos || unknown_key fchain o_msgs vaos || unknown_key fchain o_tokens vaos then 1%N
-  else if lonely_slot fchain vaos then 2%N else 0%N.
+  let vaos := accepted (map (fun a => validate (snd (fst a)) dest fchain (snd a)) aos) aos in
+  if lonely_slot fchain vaos then 2%N else 0%N.
 
 Definition c07_judge := judge c07_model c07_oeqb c07_ok c07_known.
